@@ -13,6 +13,9 @@ mod dynamic;
 mod filters;
 mod sealed;
 mod vertex_info;
+#[cfg(feature = "__verif")]
+#[doc(hidden)]
+pub mod verif_hooks;
 
 pub use candidates::{CandidateValue, Range};
 pub use dynamic::DynamicallyResolvedValue;
